@@ -191,6 +191,8 @@ struct Global
 Global *G = nullptr;
 thread_local Th *t_cur = nullptr;
 thread_local int t_pass = 0;
+thread_local std::string *t_nextChild = nullptr; // name for the next thread this thread creates
+std::atomic<int> g_anon{0};                      // unnamed children (created by the code under test): w1, w2, ...
 
 void bumpCtl()
 {
@@ -562,7 +564,15 @@ int pthread_create(pthread_t *out, const pthread_attr_t *attr, void *(*start)(vo
   Th *c;
   {
     Lock l;
-    c = newThread(t->name + "." + std::to_string(++t->children));
+    std::string nm;
+    if (t_nextChild && !t_nextChild->empty())
+    {
+      nm = *t_nextChild;
+      t_nextChild->clear();
+    }
+    else
+      nm = "w" + std::to_string(g_anon.fetch_add(1) + 1);
+    c = newThread(nm);
     c->start = start;
     c->arg = arg;
   }
@@ -666,6 +676,7 @@ void reset(const Options &o)
   G->opt = o;
   G->rng = o.seed * 0x9E3779B97F4A7C15ULL + 0x1234567ULL;
   if (G->rng == 0) G->rng = 1;
+  g_anon = 0;
   struct timespec ts;
   r_clock_gettime(CLOCK_MONOTONIC, &ts);
   G->mono0 = tsNs(&ts);
@@ -802,22 +813,59 @@ Result run()
     bool fromPlan = false;
     if ((G->opt.policy == Policy::Replay || G->opt.policy == Policy::Prefix) && !res.drift)
     {
-      if (planPos < G->opt.plan.size())
+      // plan entries:  "t"      step thread t once
+      //                "t!"     step t (a timed waiter) with a timeout wake-up
+      //                "t*op"   keep stepping t until its pending operation is `op` (e.g. create, unlock, cv_wait,
+      //                         point:<label>) or it is no longer enabled; "t*" = until it blocks or finishes.
+      //                         Lets a coarse (critical-section grain) behaviour be replayed on the sync-op grain.
+      while (planPos < G->opt.plan.size() && pick < 0 && !res.drift)
       {
-        std::string e = G->opt.plan[planPos++];
-        bool wantTimeout = false;
-        if (!e.empty() && e.back() == '!')
+        std::string e = G->opt.plan[planPos];
+        bool wantTimeout = false, until = false;
+        std::string stopOp;
+        auto star = e.find('*');
+        if (star != std::string::npos)
+        {
+          until = true;
+          stopOp = e.substr(star + 1);
+          e = e.substr(0, star);
+        }
+        else if (!e.empty() && e.back() == '!')
         {
           wantTimeout = true;
           e.pop_back();
         }
         int id = -1;
+        std::string pendingOp;
         {
           Lock l;
           for (auto &u : G->th)
-            if (u->name == e) id = u->id;
+            if (u->name == e)
+            {
+              id = u->id;
+              if (u->state == CvWaiting)
+                pendingOp = "wake";
+              else if (u->state == AtPoint)
+                pendingOp = u->op == OpPoint ? "point:" + u->label : opName(u->op);
+            }
         }
-        if (id >= 0 && (inVec(normal, id) || inVec(low, id)))
+        bool en = id >= 0 && (inVec(normal, id) || inVec(low, id));
+        if (until)
+        {
+          // "t*" (no stop operation) ends when t is no longer *normally* enabled: it blocked, finished, or only a
+          // timeout / sleep / yield could move it
+          if (!en || (!stopOp.empty() && pendingOp == stopOp) || (stopOp.empty() && !inVec(normal, id)))
+          {
+            ++planPos; // this entry is complete: go on with the next one
+            continue;
+          }
+          if (inVec(low, id) && !inVec(normal, id)) kind = kinds[id];
+          pick = id;
+          fromPlan = true;
+          break;
+        }
+        ++planPos;
+        if (en)
         {
           // a timed waiter that holds a token may still be asked to time out
           if (wantTimeout)
@@ -829,7 +877,7 @@ Result run()
             else
               id = -1;
           }
-          else if (inVec(low, id))
+          else if (inVec(low, id) && !inVec(normal, id))
             kind = kinds[id];
         }
         else
@@ -845,7 +893,6 @@ Result run()
           res.driftAt = step;
         }
       }
-
     }
     if (pick < 0)
     {
@@ -912,6 +959,22 @@ long long virtualAdvanceNs() { return G ? G->vadv.load() : 0; }
 void advanceVirtualNs(long long ns)
 {
   if (G) G->vadv.fetch_add(ns);
+}
+
+void nameNextChild(const std::string &name)
+{
+  if (!t_nextChild) t_nextChild = new std::string();
+  *t_nextChild = name;
+}
+
+int liveThreads(const char *prefix)
+{
+  if (!G) return 0;
+  int n = 0;
+  Lock l;
+  for (auto &u : G->th)
+    if (u->state != Finished && u->name.rfind(prefix, 0) == 0) ++n;
+  return n;
 }
 
 int self() { return t_cur ? t_cur->id : -1; }
